@@ -7,7 +7,7 @@ Import ListNotations.
 From Yaqs Require LinAlg.Unravel.
 From Yaqs Require Import Base.Num Model.NoiseAttrib Proofs.NoiseAttribP Model.DigitalLoop Proofs.DigitalLoopP.
 From Yaqs Require Import Proofs.DissipationP.
-From Yaqs Require Import Gen.SmallGen Proofs.SmallGenP.
+From Yaqs Require Import Gen.LocalGen Proofs.LocalGenP.
 
 Theorem C03_local_selection : forall (A : Type) (kind_of : A -> pkind) a b procs p,
   In p (local_procs kind_of a b procs) <->
@@ -61,7 +61,7 @@ Theorem C03_unravelling_step_is_lindblad_to_first_order :
 Proof. exact @Unravel.unravelling_first_order. Qed.
 Print Assumptions C03_unravelling_step_is_lindblad_to_first_order.
 
-(* tie to the source by translation (Gen/SmallGen.v regenerated on every run): the list comprehension of create_local_noise_model
+(* tie to the source by translation (Gen/LocalGen.v regenerated on every run): the list comprehension of create_local_noise_model
    selects exactly the model's local processes, in list order *)
 Theorem C03_source_local_selection_is_model : forall (A : Type) (kind_of : A -> pkind) a b procs,
   filter (fun p => local_selected_src a b (sites_of (kind_of p))) procs = local_procs kind_of a b procs.
